@@ -515,9 +515,9 @@ static inline void %(s)s_dtor(%(s)s *v) { if (v->b) free(v->b); v->b = 0; v->n =
             tr.need_record(canon)
             tr.rule("std::lock_guard model")
             self.text.setdefault("lock_guard", """
-static inline void verif_lock_guard_ctor(std_lock_guard_std_mutex *g, std_mutex *m) { __CPROVER_assert(m->g_held == 0, "LOCK mutex acquired while already held (self-deadlock)"); m->g_held = 1; g->m = m; }
+static inline void verif_lock_guard_ctor(std_lock_guard_std_mutex *g, std_mutex *m) { __CPROVER_assert(m->g_held == 0, "LOCK mutex acquired while already held (self-deadlock)"); m->g_held = 1; g->m = m; VERIF_ON_ACQUIRE(m); }
 static inline void verif_lock_guard_dtor(std_lock_guard_std_mutex *g) { g->m->g_held = 0; }
-""")
+""".replace("VERIF_ON_ACQUIRE(m);", "verif_on_acquire(m);" if tr.opts.get("on_acquire") else "").replace("static inline void verif_lock_guard_ctor", ("void verif_on_acquire(std_mutex *m); /* unit-supplied interference point: what other threads may have done since this thread last held the mutex */\nstatic inline void verif_lock_guard_ctor" if tr.opts.get("on_acquire") else "static inline void verif_lock_guard_ctor"), 1))
             return [X("expr", X("call", "verif_lock_guard_ctor", [ptr, tr.bind_ref(args[0])]))]
         if canon.startswith("std::function<"):
             return self.function_ctor(canon, ptr, args, ps)
